@@ -546,6 +546,53 @@ pub fn c18(em: &mut Emit, thorough: bool, _seed: u64) {
         }
         write_file(&path, size);
     }
+    // --- a sparse file of more than 4 GiB: ranges whose length is around 2^31 and 2^32 (only the
+    // first polls; the holes read as zeros)
+    {
+        let big = tmp.path().join("sparse");
+        let size = (1u64 << 32) + 20;
+        let f = std::fs::File::create(&big).unwrap();
+        if f.set_len(size).is_ok() {
+            for (a, b) in [
+                (10u64, (1u64 << 32) + 10),
+                (0, (1 << 32) + 5),
+                (0, 1 << 32),
+                (5, (1 << 32) + 5),
+                (1, 1 << 31),
+                (0, (1 << 31) + 1),
+                ((1 << 32) - 1, (1 << 32) + 1),
+                ((1 << 32) + 1, (1 << 32) + 20),
+            ] {
+                let crf = Arc::new(Crf::new(std::fs::File::open(&big).unwrap(), HeaderMap::new()).unwrap());
+                let (outs, fsizes) = poll_file(&rt, &big, &crf, a, b, &[], 3);
+                let mut ok = crf.len() == size;
+                let mut why = "len() is not the file's length".to_string();
+                let mut n = 0u64;
+                for o in &outs {
+                    match o {
+                        FOut::Chunk(_, d) if !d.is_empty() && d.iter().all(|x| *x == 0) => n += d.len() as u64,
+                        FOut::End if n == b - a => {}
+                        other => {
+                            ok = false;
+                            why = format!("unexpected {} on an unmodified sparse file", show_fouts(std::slice::from_ref(other)));
+                        }
+                    }
+                }
+                if ok && n == 0 {
+                    ok = false;
+                    why = "nothing delivered".into();
+                }
+                em.case(
+                    &format!("FILE start={} end={} sizes={}", a, b, fsizes.iter().map(|s| s.to_string()).collect::<Vec<_>>().join(",")),
+                    &show_fouts(&outs),
+                    &pred(ok, || why.clone()),
+                    "sparse-4g",
+                );
+            }
+        } else {
+            em.note("c18", "this file system cannot hold a 4 GiB sparse file; cases skipped");
+        }
+    }
     // --- non-regular files are refused
     {
         let d = std::fs::File::open(tmp.path()).unwrap();
@@ -836,6 +883,17 @@ fn build_tree() -> Tree {
     std::os::unix::fs::symlink("g.gz", base.join("sub/g.gz")).unwrap();
     std::os::unix::fs::symlink("k.gz", base.join("k.gz")).unwrap();
     drop(std::os::unix::net::UnixListener::bind(base.join("h.gz")).unwrap());
+    // deep nesting: short names, but a path of more than 255 (and more than 1024) bytes in total
+    let mut deep = base.join("deep");
+    for i in 0..180 {
+        deep = deep.join(format!("n{:03}", i));
+        if i == 45 || i == 179 {
+            std::fs::create_dir_all(&deep).unwrap();
+            std::fs::write(deep.join("a"), format!("deep plain {}", i)).unwrap();
+            std::fs::write(deep.join("a.gz"), format!("deep gz {}", i)).unwrap();
+            std::fs::write(deep.join("p"), format!("deep plain only {}", i)).unwrap();
+        }
+    }
     Tree {
         _tmp: tmp,
         outer,
@@ -937,6 +995,13 @@ pub fn c19(em: &mut Emit, thorough: bool, seed: u64) {
         } else {
             next
         };
+    }
+    // deep paths (total length beyond NAME_MAX and beyond 1 KiB, every name short)
+    for depth in [46usize, 180] {
+        let dir: String = std::iter::once("deep".to_string()).chain((0..depth).map(|i| format!("n{:03}", i))).collect::<Vec<_>>().join("/");
+        for leaf in ["a", "p", "a.gz", "missing", ""] {
+            paths.push(format!("{}/{}", dir, leaf));
+        }
     }
     // NUL injected at every position of a subset
     let mut with_nul = vec![];
